@@ -180,6 +180,78 @@ def lenient_equal(obs, exp):
     return len(a) == len(b) and all(x[0] == y[0] and x[2] == y[2] and (x[1] is None or x[1] == y[1]) for x, y in zip(a, b))
 
 
+WS_DOCS = ["#\\#CIF_2.0\ndata_d\n_a [1 2]\n_b [ 3 4 ] # c\n_c {'k':v 'm': w}\nloop_ _x\n 1\n 2\n",
+           "#\\#CIF_2.0\n# first\n\ndata_d   _a\t'x'  \n\n   save_f _u [[1] {'k':[2]}] save_\n_t  \"y\"   # end",
+           "data_d\n_a 1 _b 2\nloop_\n_x _y\n1 2 3 4\n"]
+
+
+def ws_tokens(text):
+    """(tokens, white space and comment text in order) of a simply laid out document (no blanks inside quoted strings)"""
+    toks, ws, i = 0, [], 0
+    while i < len(text):
+        ch = text[i]
+        if ch in " \t\n":
+            j = i
+            while j < len(text) and text[j] in " \t\n":
+                j += 1
+            ws.append(text[i:j]); i = j
+        elif ch == "#" and (i == 0 or text[i - 1] in " \t\n"):
+            j = text.find("\n", i)
+            j = len(text) if j < 0 else j
+            ws.append(text[i:j]); i = j
+        else:
+            j = i
+            while j < len(text) and text[j] not in " \t\n":
+                j += 1
+            word = text[i:j]
+            # brackets and braces are tokens of their own; a quoted key with its colon is one token
+            k = 0
+            while k < len(word):
+                if word[k] in "[]{}":
+                    toks += 1; k += 1
+                elif word[k] in "'\"":
+                    e = word.index(word[k], k + 1)
+                    k = e + 1
+                    if k < len(word) and word[k] == ":":
+                        k += 1
+                    toks += 1
+                else:
+                    e = k
+                    while e < len(word) and word[e] not in "[]{}":
+                        e += 1
+                    toks += 1; k = e
+            i = j
+    return toks, "".join(ws)
+
+
+def ws_runs(binary, rep):
+    """the white space callback (cif.h): runs of insignificant white space and comments are reported in document order - all
+    of them, possibly split - and every transition to a token is marked by a zero-length run, also where optional white
+    space is omitted.  Checked on an all-continue parse, storing and syntax-only"""
+    cmds = []
+    for t in WS_DOCS:
+        cmds += [{"op": "parse", "cif": "c", "text": t, "handler": 1, "syntax": 1, "ws": 1, "errors": "accept"}, {"op": "parse", "text": t, "handler": 1, "syntax": 1, "ws": 1, "errors": "accept"}, {"op": "reset"}]
+    rr = run_cifrun(binary, cmds, timeout=300)
+    n = ok = 0
+    for i, t in enumerate(WS_DOCS):
+        toks, wstext = ws_tokens(t)
+        for j, mode in ((0, "storing"), (1, "syntax-only")):
+            n += 1
+            o = rr.outs[3 * i + j] if 3 * i + j < len(rr.outs) else {}
+            runs = [e.get("t", "") for e in o.get("log", []) if e.get("cb") == "ws"]
+            got, marks = "".join(runs), sum(1 for r in runs if r == "")
+            errs = [e for e in o.get("log", []) if e.get("cb") == "error"]
+            if "log" not in o or errs or o.get("rc") != 0:
+                rep.violation("whitespace runs: parse failed", "document %r (%s): rc %s errors %s" % (t, mode, o.get("rc"), errs[:2]), {"text": t})
+            elif got != wstext:
+                rep.violation("whitespace runs: text reported differs from the document's", "document %r (%s): reported %r, the document has %r" % (t, mode, got, wstext), {"text": t, "runs": runs})
+            elif marks != toks:
+                rep.violation("whitespace runs: %s zero-length markers than tokens" % ("fewer" if marks < toks else "more"), "document %r (%s): %d zero-length runs for %d tokens" % (t, mode, marks, toks), {"text": t, "runs": runs})
+            else:
+                ok += 1
+    return n, ok
+
+
 def c15(tier, replay=None):
     rep = Report("C15", tier, "model_checking")
     binary = build("asan")
@@ -254,6 +326,9 @@ def c15(tier, replay=None):
         if not rep.samples and programs:
             p = programs[len(programs) // 2]
             rep.samples.append({"document": text, "program": p["script"], "predicted_log": p["log"][:14], "rc": p["rc"], "stored": p["stored"]})
+    nws = ws_runs(binary, rep)
+    total += nws[0]; total_ok += nws[1]
+    log("[C15 whitespace runs] documents x modes %d ok %d" % nws)
     return rep.finish({"states": max(tstates, 1), "transitions": max(ttrans, 1), "traces_validated_against_impl": total_ok,
                        "handler_programs": total, "documents": covs, "exhaustive": tier != "quick" or False,
                        "explanation": "every assignment of {continue, skip-current, skip-siblings, end, error 10} to the handler callbacks of each document, replayed in storing and in syntax-only mode"},
